@@ -47,6 +47,23 @@ func infra(format string, args ...interface{}) {
 	panic(infraError{fmt.Sprintf(format, args...)})
 }
 
+var normalised bool
+
+// tryLoadNormalised loads the tree with the normalising overlay; if the rewritten source does not type-check (a case the
+// rewriting did not foresee) the original program is analysed instead.
+func tryLoadNormalised(repoDir string, overlay map[string][]byte, goarch string) (w *World) {
+	defer func() {
+		if e := recover(); e != nil {
+			if _, isInfra := e.(infraError); isInfra {
+				w = nil
+				return
+			}
+			panic(e)
+		}
+	}()
+	return loadWorld(repoDir, overlay, goarch)
+}
+
 // loadWorld type-checks ./... of repoDir from source (no test files) and
 // builds SSA for it and all dependencies. overlay maps absolute file names to
 // replacement contents (used only by variants).
@@ -78,6 +95,30 @@ func loadWorld(repoDir string, overlay map[string][]byte, goarch string) *World 
 	})
 	if nerr > 0 {
 		infra("type-check/load errors (%d), first: %s", nerr, first)
+	}
+	if !normalised {
+		// source normalisation (normalise.go): split local struct variables used field by field; reload once if any
+		var own []*packages.Package
+		for _, p := range pkgs {
+			if p.PkgPath == rootPath || p.PkgPath == replPath {
+				own = append(own, p)
+			}
+		}
+		if extra := sroaOverlay(own, overlay); extra != nil {
+			merged := map[string][]byte{}
+			for k, v := range overlay {
+				merged[k] = v
+			}
+			for k, v := range extra {
+				merged[k] = v
+			}
+			normalised = true
+			defer func() { normalised = false }()
+			w2 := tryLoadNormalised(repoDir, merged, goarch)
+			if w2 != nil {
+				return w2
+			}
+		}
 	}
 	w := &World{RepoDir: repoDir, Pkgs: pkgs, GOARCH: goarch}
 	for _, p := range pkgs {
